@@ -241,6 +241,12 @@ def check_libtest(rec, out):
         else:
             extra, missing = diff(list(rc.elements()), list(sc.elements()))
             out.append(("libtest-started-result-names", f"libtest: results without started {extra}; started without result {missing}"))
+    # the suite's announced size is the stream's own announcement (ParsingFinished): the number
+    # of steps it says were parsed plus the number of parser errors
+    ann = rec.get("announced")
+    if ann is not None and suite_start.get("test_count") != ann["steps"] + ann["parser_errors"]:
+        out.append(("libtest-test-count", f'libtest: suite started with test_count {suite_start.get("test_count")}, '
+                    f'the stream announced {ann["steps"]} steps and {ann["parser_errors"]} parser errors'))
     # facts
     want, perr_n = [], 0
     for x in facts:
